@@ -7,7 +7,8 @@ package main
 // very bytes and compare its TEXT with the implementation's text (double lexemes by value).
 // Classes: the C03 generator's descriptors x values (unknown fields of every shape, missing required fields, non-finite doubles,
 // escape-relevant strings, binaries, int/string/double/bool map keys) x options {Int642String, ByteAsUint8, NoBase64Binary,
-// DisallowUnknownField, UseNativeSkip}; deeply nested lists / maps / structs; structs whose required fields sit at the
+// DisallowUnknownField, UseNativeSkip, EnableValueMapping (api.js_conv fields), WriteDefaultField, WriteRequireField,
+// WriteOptionalField (no effect without SetOptionalBitmap), EnableThriftBase with / without a BaseResp in the context}; deeply nested lists / maps / structs; structs whose required fields sit at the
 // word boundaries of the requires bitmap; bytes followed by garbage; truncated and corrupted encodings (outside C03: the
 // checker reports a disagreement there as drift only).
 
@@ -19,6 +20,12 @@ import (
 	"github.com/cloudwego/dynamicgo/conv"
 	"github.com/cloudwego/dynamicgo/conv/t2j"
 	"github.com/cloudwego/dynamicgo/thrift"
+	"github.com/cloudwego/dynamicgo/thrift/base"
+)
+
+const (
+	o3bWriteOptional = 1 << 11 // conv.Options.WriteOptionalField
+	o3bPublishOpts   = 1 << 20 // harness only: the caller puts the options into the context (not part of the case)
 )
 
 func init() {
@@ -39,9 +46,21 @@ func run03b(desc *thrift.TypeDescriptor, dfs []string, tb []byte, opts int) {
 		EnableValueMapping:   opts&o3ValueMapping != 0,
 		EnableThriftBase:     opts&o3ThriftBase != 0,
 		ConvertException:     opts&o3ConvertException != 0,
+		WriteDefaultField:    opts&o3WriteDefault != 0,
+		WriteRequireField:    opts&o3WriteRequire != 0,
+		WriteOptionalField:   opts&o3bWriteOptional != 0,
 	}
 	cv := t2j.NewBinaryConv(co)
-	ctx := context.WithValue(context.Background(), conv.CtxKeyConvOptions, co)
+	ctx := context.Background()
+	if opts&o3bPublishOpts != 0 {
+		// the caller may publish the options itself (value-mapping annotations read ByteAsUint8 from the context);
+		// otherwise the converter does it
+		ctx = context.WithValue(ctx, conv.CtxKeyConvOptions, co)
+	}
+	if opts&o3BaseInCtx != 0 {
+		ctx = context.WithValue(ctx, conv.CtxKeyThriftRespBase, base.NewBaseResp())
+	}
+	opts &^= o3bPublishOpts
 	src := append([]byte(nil), tb...)
 	var outb []byte
 	var err error
@@ -88,8 +107,23 @@ func walkOpts(r *rng) int {
 			opts |= 1 << b
 		}
 	}
-	if r.chance(30) {
+	if r.chance(35) {
+		opts |= o3ValueMapping
+	}
+	if r.chance(25) {
+		opts |= o3WriteDefault
+	}
+	if r.chance(25) {
+		opts |= o3WriteRequire
+	}
+	if r.chance(15) {
+		opts |= o3bWriteOptional
+	}
+	if r.chance(25) {
 		opts = 0
+	}
+	if r.chance(50) {
+		opts |= o3bPublishOpts
 	}
 	return opts
 }
@@ -130,23 +164,56 @@ func genC03Bytes(r *rng, n int) {
 			g.keyKinds = append(g.keyKinds, thrift.BOOL, thrift.DOUBLE)
 		}
 		root := g.genStruct(0)
+		// thrift base: one extra root field of type base.BaseResp (as genC03 does)
+		useBase := g.r.chance(25)
+		var baseFld *Fld
+		if useBase {
+			g.base = &Ty{K: thrift.STRUCT, Name: "BaseResp", Fields: []*Fld{
+				{ID: 1, Name: "StatusMessage", T: &Ty{K: thrift.STRING}},
+				{ID: 2, Name: "StatusCode", T: &Ty{K: thrift.I32}},
+				{ID: 3, Name: "Extra", T: &Ty{K: thrift.MAP, Key: &Ty{K: thrift.STRING}, Elem: &Ty{K: thrift.STRING}}, Req: 2}}}
+			g.structs = append(g.structs, g.base)
+			id := int16(255)
+			for _, f := range root.Fields {
+				if f.ID == id {
+					id = 254
+				}
+			}
+			for _, f := range root.Fields {
+				if f.ID == id {
+					useBase = false
+				}
+			}
+			if useBase {
+				baseFld = &Fld{ID: id, Name: "BaseResp", T: g.base}
+				root.Fields = append(root.Fields, baseFld)
+			} else {
+				g.structs = g.structs[:len(g.structs)-1]
+				g.base = nil
+			}
+		}
 		g.decorate(root)
-		for _, e := range g.extra {
-			e.jsconv = false // api.js_conv is outside the walk's options
+		if useBase {
+			g.extra[baseFld].respBase = true
+			g.extra[baseFld].jsconv = false
+			for _, f := range g.base.Fields {
+				g.extra[f].jsconv = false
+				g.extra[f].alias = f.Name
+			}
 		}
 		escAlias := g.r.chance(20)
 		if escAlias {
 			// member keys that need escaping in a JSON string (api.key takes any IDL string literal)
 			for _, s := range g.structs {
 				for _, f := range s.Fields {
-					if g.r.chance(50) {
+					if s != g.base && g.r.chance(50) {
 						g.extra[f].alias = fmt.Sprintf("%s%d", escAliasPool[g.r.intn(len(escAliasPool))], f.ID)
 					}
 				}
 			}
 		}
 		rootTy := root
-		if g.r.chance(12) {
+		if !useBase && g.r.chance(12) {
 			switch g.r.intn(4) {
 			case 0:
 				rootTy = &Ty{K: thrift.LIST, Elem: root}
@@ -158,8 +225,8 @@ func genC03Bytes(r *rng, n int) {
 				rootTy = &Ty{K: scalarKinds[g.r.intn(len(scalarKinds))]}
 			}
 		}
-		idl, inc := g.idl03(rootTy, false)
-		desc, err := parse03(idl, inc, thrift.Options{})
+		idl, inc := g.idl03(rootTy, useBase)
+		desc, err := parse03(idl, inc, thrift.Options{EnableThriftBase: useBase})
 		if err != nil {
 			die("C03 bytes: IDL does not parse: %v\n%s", err, idl)
 		}
@@ -173,6 +240,12 @@ func genC03Bytes(r *rng, n int) {
 			val := g.genValue03(rootTy, 0, vo)
 			tb := val.encode(nil)
 			opts := walkOpts(g.r)
+			if useBase && g.r.chance(60) {
+				opts |= o3ThriftBase
+				if g.r.chance(75) {
+					opts |= o3BaseInCtx
+				}
+			}
 			run03b(desc, dfs, tb, opts)
 			made++
 			if g.r.chance(12) && made < n {
